@@ -560,6 +560,25 @@ def make_assets(rng, tag, n):
     return out
 
 
+class Spawner:
+    """Scheduler action that creates further assets the first time it runs - i.e. during the scheduler's start-up
+    round, which for a pre-created scheduler happens INSIDE the initialisation pass of the first simulate()."""
+
+    def __init__(self, rng, out):
+        self.rng, self.out, self.done = rng, out, False
+
+    def __call__(self, scheduler, obj, time, state):
+        if self.done:
+            return
+        self.done = True
+        from simprocesd.model.factory_floor import ActionScheduler, PartHandler, Maintainer
+        from simprocesd.model.sensors import PeriodicSensor, AttributeProbe
+        self.out.append(ActionScheduler([(0.5, 'x'), (0.75, 'y')], name='spawned_scheduler'))
+        self.out.append(PartHandler(name='spawned_handler', cycle_time=0.5))
+        self.out.append(PeriodicSensor(0.5, [AttributeProbe('name', obj)], name='spawned_sensor'))
+        self.out.append(Maintainer(name='spawned_maintainer'))
+
+
 def sequence_case(sh, i):
     from simprocesd.model import System
     from simprocesd.model.factory_floor import PartHandler, PartProcessor, Asset, PartFlowController
@@ -585,6 +604,12 @@ def sequence_case(sh, i):
                 systems.append(System())
                 mine[k] = make_assets(rng, 'bcd'[k - 1], rng.randint(1, 5))
             newest = systems[-1]
+            spawned = []
+            if rng.random() < 0.5:
+                from simprocesd.model.factory_floor import ActionScheduler
+                sp = ActionScheduler([(1, 'on'), (1, 'off')], name='spawner')
+                sp.register_object(sp, Spawner(rng, spawned))
+                mine.setdefault('spawner', []).append(sp)
             # a superseded system must refuse to simulate
             for s in systems[:-1]:
                 t_before = s.env.now
@@ -612,6 +637,13 @@ def sequence_case(sh, i):
                 if r + 1 < runs and rng.random() < 0.5:
                     mine.setdefault('between', []).extend(make_assets(rng, f'btw{r}', rng.randint(1, 3)))
             lc.final(simulated)
+            for a in spawned:
+                sh.count('assets_created_during_the_initialisation_pass')
+                if a.env is None:
+                    lc.fail('initialise_count', f'{type(a).__name__} {a.name}, created by another asset\'s start-up action '
+                            f'during the initialisation pass of the first simulate(), was never initialised')
+                elif hasattr(a, 'current_state') and a.current_state is None:
+                    lc.fail('initialise_count', f'scheduler {a.name} created during the initialisation pass never started')
             # find_assets vs. brute force over the creation log
             pool = [rec['asset'] for rec in lc.created if rec['system'] is newest]
             names = sorted({a.name for a in pool})
